@@ -115,7 +115,7 @@ def _check(v0, v1, w, checklines):
     return None
 
 
-V1 = ("!", "%", ";", "\u00e9", ",", "=", "\x01", "a b", "&")      # finite mode: representative reserved / non-ASCII / blank-containing values
+V1 = ("!", "%", ";", "\u00e9", ",", "=", "\x01", "a b", "&", "a+b")      # finite mode: representative reserved / non-ASCII / blank-containing values
 FIXW = hx.sel("VB_FIXW", "0") == "1"                                # 1: the two auxiliary values are fixed
 ARB = hx.sel("VB_ARB", "0") == "1"                                  # 1: v1 is an ARBITRARY character (expensive), v0/w fixed
 
